@@ -95,6 +95,12 @@ type Notif struct {
 
 type arrival struct{ t *thread }
 
+type closer struct {
+	k        int
+	done     chan struct{}
+	returned bool
+}
+
 // Sim is one engine under the scheduler.
 type Sim struct {
 	Cfg    Config
@@ -109,7 +115,8 @@ type Sim struct {
 	Viol   []Violation
 	ReqC   bool // ForceClose was called
 	Closed bool
-	closers []chan struct{}
+	closers []*closer
+	Src     Src // shape of the source: decides when a parked thread can be released
 	Lost   string // non-empty: the scheduler lost a thread (harness error)
 	Log    []string // transmissions id/seq/body in order
 	Stats  map[string]int
@@ -134,8 +141,8 @@ type bodyEnc struct{ tag uint64 }
 func (b bodyEnc) Encode(buf *bin.Buffer) error { buf.PutLong(int64(b.tag)); return nil }
 
 // New creates an engine wired to the scheduler and installs the hook.
-func New(cfg Config) *Sim {
-	s := &Sim{Cfg: cfg, calls: map[int64]*Call{}, notifs: map[int64]*Notif{}, arrive: make(chan arrival), Stats: map[string]int{}}
+func New(cfg Config, src Src) *Sim {
+	s := &Sim{Cfg: cfg, Src: src, calls: map[int64]*Call{}, notifs: map[int64]*Notif{}, arrive: make(chan arrival), Stats: map[string]int{}}
 	s.clk = neo.NewTime(time.Date(2021, 1, 1, 0, 0, 0, 0, time.UTC))
 	rpc.VerifC24SetHook(s.hook)
 	s.Eng = rpc.New(s.send, rpc.Options{
